@@ -169,7 +169,9 @@ char *strcpy(char *d, const char *s)
     __CPROVER_assume(!(vg_l1exit < r) || s[vg_l1exit] != 0);
     __CPROVER_assert(r < VREMAIN(d), "strcpy: destination holds the source string and its terminator");
     char c = (vg_k < r) ? s[vg_k] : 0;
-    __CPROVER_havoc_slice(d, r + 1);
+    /* over-approximation: the whole destination object gets arbitrary contents (the real strcpy leaves the
+     * bytes behind the terminator alone), then the terminator and the ghost byte are pinned */
+    __CPROVER_havoc_object(d);
     d[r] = 0;
     if (vg_k < r) d[vg_k] = c;
     vg_rlen = r;
